@@ -12,7 +12,7 @@ from ..devsim import SimDevice
 ID = "C16"
 LEVEL = "exploration"
 SHARDS = {"quick": 8, "thorough": 16}
-RULE = ("model-based histories: optionally the unit hangs up after every answer (FIN or RST, seen by the client's event loop after or in the same pass as the answer; the transport asks eof_received() as asyncio does); operation `apply_cancelled_early`: the unit answers the state command and hangs up, the reconnect for the property write hangs and the caller gives up - the next apply() still owes the write; operation `apply_cutack`: the unit executes the property write and its acknowledgement arrives cut short inside a record (checksum valid) - the write counts as made; a capability profile (breeze in {breeze-control, legacy away only, legacy breezeless only, legacy "
+RULE = ("(also: pairs of breeze settings given to `msmart-ng control` in either order, through C20's command-line harness) model-based histories: optionally the unit hangs up after every answer (FIN or RST, seen by the client's event loop after or in the same pass as the answer; the transport asks eof_received() as asyncio does); operation `apply_cancelled_early`: the unit answers the state command and hangs up, the reconnect for the property write hangs and the caller gives up - the next apply() still owes the write; operation `apply_cutack`: the unit executes the property write and its acknowledgement arrives cut short inside a record (checksum valid) - the write counts as made; a capability profile (breeze in {breeze-control, legacy away only, legacy breezeless only, legacy "
         "both, none}; rate select none/2-level/5-level; iECO, self-clean, vertical/horizontal swing angle present or not) and a "
         "list of up to 25 (quick) / 40 (thorough) operations from {set angle (every member), set rate select (members the profile "
         "supports), breeze_away/mild/breezeless := bool (only where supports_* is true), ieco := bool, start_self_clean, beep := "
@@ -435,6 +435,10 @@ def check_case(case: dict):
 
 
 def replay(ctx, case):
+    if "cli" in case:
+        from . import c20
+        v = c20.check_case(case["cli"])
+        return None if v is None else ("cli/" + v[0], v[1])
     return check_case(case)
 
 
@@ -515,6 +519,21 @@ def run(ctx) -> None:
                         case["hangup"] = ["fin", "rst", "fin_same", "rst_same"][(n // 3) % 4]
                     ctx.check(case, lambda c: _run_one(ctx, c))
     ctx.sweep("each setter x profile family scripts", n, True)
+    # the command line front end as a caller of the setters: pairs of breeze settings written in either order (only the last one
+    # switched on, or both off) reach the unit as the documented meaning of the line
+    import itertools
+    from . import c20
+    cl = 0
+    for a, b_ in itertools.permutations(["breeze_away", "breeze_mild", "breezeless"], 2):
+        for va, vb in ((False, True), (False, False)):
+            for caps in (False, True):
+                cl += 1
+                if ctx.mine(cl):
+                    ccase = c20._mk_valid([((a, "bool", va), f"{a}={int(va)}"), ((b_, "bool", vb), f"{b_}={int(vb)}")], c20.DEFAULT_INITIAL, caps, 2, False, cl % 2 == 0)
+                    ctx.case(hash(("cli", a, b_, va, vb, caps)), True, cls="cli breeze pairs")
+                    ctx.sample("cli", ccase)
+                    ctx.check({"cli": ccase}, lambda c: (lambda v: None if v is None or v[0].startswith("late-report") or "after-display-toggle" in v[0] else ("cli/" + v[0], v[1]))(c20.check_case(c["cli"])))
+    ctx.sweep("breeze setting pairs through the command line front end x order x --capabilities", cl, True)
     cases = st.fixed_dictionaries({"profile": profiles(), "ops": ops_strategy(25 if ctx.quick else 40)},
                                   optional={"hangup": st.sampled_from(["fin", "rst", "fin_same", "rst_same"])})
     ctx.hyp("histories", cases, lambda c: _run_one(ctx, c), ctx.n(3200, 160000))
